@@ -1,3 +1,4 @@
+import PilotaModel.TGen.Async
 import PilotaModel.TGen.Decode
 import PilotaModel.TGen.Keep
 import PilotaModel.TGen.Mem
@@ -62,6 +63,15 @@ def leaksAt (d : Doc) (n : String) (p : Proto) (bs : Bytes) : Bool :=
   | .err l => l > 0
   | _ => false
 
+/-- the delivery schedule of a `ga` request: a chunk size per poll (0 = a spurious `Pending`), then everything that is left -/
+def streamOf : List Nat → Bytes → Pilota.Thrift.Async.Stream
+  | [], [] => []
+  | [], b :: bs => [.data b bs]
+  | 0 :: cs, bs => .pending :: streamOf cs bs
+  | (c+1) :: cs, bs => match bs.take (c+1) with
+    | [] => streamOf cs bs
+    | b :: r => .data b r :: streamOf cs (bs.drop (c+1))
+
 def answer (docs : Docs) (items : List Sexp) : Option (Docs × String) := do
   let verb ← items.head? >>= Sexp.asAtom
   match verb with
@@ -87,6 +97,18 @@ def answer (docs : Docs) (items : List Sexp) : Option (Docs × String) := do
     let input : Out Bytes ← if verb == "gb" || verb == "gab" then (.ok <$> (items[idx]? >>= Sexp.asHex)) else (inputOf p <$> (items[idx]? >>= TVal.ofSexp))
     match input with
     | .ok bs =>
+      -- the emitted decode_async on the binary / LE async protocol: the resumable-program model, run on the request's delivery schedule
+      let asyncBin : Option Endian := if (verb == "ga" || verb == "gab") && !(dn.endsWith "k") then
+          (match p with | .bin => some .be | .le => some .le | _ => none) else none
+      match asyncBin with
+      | some e =>
+        let chunks : List Nat := match items[4]? >>= Sexp.asAtom with
+          | some c => if c == "-" then [] else (c.splitOn ",").filterMap String.toNat?
+          | none => []
+        match Pilota.TGen.adecode e d ty (streamOf chunks bs) with
+        | .ok (v, n) => pure (docs, s!"ok {shown v} pulled={n}")
+        | o => pure (docs, if o.cls == "depth" then "err" else o.cls)
+      | none =>
       match decodeWith d ty p bs (dn.endsWith "k") with
       | .ok (v, rem) =>
         if verb == "ga" || verb == "gab" then pure (docs, s!"ok {shown v} pulled={bs.length - rem}")
